@@ -25,6 +25,7 @@ import (
 	"fmt"
 	"strconv"
 	"strings"
+	"unicode/utf8"
 
 	errorsmod "cosmossdk.io/errors"
 	channeltypes "github.com/cosmos/ibc-go/v8/modules/core/04-channel/types"
@@ -158,6 +159,14 @@ func ValidateCounterpartyID(id string, protocol ProtocolID) error {
 	// null-terminated and cannot be encoded if they contain the null character.
 	if strings.ContainsRune(id, 0) {
 		return errors.New("counterparty ID cannot contain the null character")
+	}
+
+	// NOTE: the non-terminal string encoding of collections keys stores only the first byte of
+	// every character, so an ID is kept faithfully only if all its characters are single-byte.
+	for i := 0; i < len(id); i++ {
+		if id[i] >= utf8.RuneSelf {
+			return errors.New("counterparty ID can contain only ASCII characters")
+		}
 	}
 
 	if len(id) > MaxCounterpartyIDLength {
